@@ -160,11 +160,11 @@ impl<'a> Default for DecompOpts<'a> {
     fn default() -> Self { DecompOpts { options: Default::default(), width: 80, mapfiles: vec![], display_name: "<input file>" } }
 }
 
-/// The 5 --no-* flags as bits: 1=no-blocks 2=no-intrinsics 4=no-arguments 8=no-diff-switches 16=no-calls
+/// The decompile options as bits: 1=no-blocks 2=no-intrinsics 4=no-arguments 8=no-diff-switches 16=no-calls 32=show-instr-offsets
 pub fn options_from_bits(bits: u32) -> DecompileOptions {
     DecompileOptions {
         blocks: bits & 1 == 0, intrinsics: bits & 2 == 0, arguments: bits & 4 == 0,
-        diff_switches: bits & 8 == 0, calls: bits & 16 == 0, show_instr_offsets: false,
+        diff_switches: bits & 8 == 0, calls: bits & 16 == 0, show_instr_offsets: bits & 32 != 0,
     }
 }
 pub fn flags_from_bits(bits: u32) -> Vec<&'static str> {
@@ -174,6 +174,7 @@ pub fn flags_from_bits(bits: u32) -> Vec<&'static str> {
     if bits & 4 != 0 { v.push("--no-arguments"); }
     if bits & 8 != 0 { v.push("--no-diff-switches"); }
     if bits & 16 != 0 { v.push("--no-calls"); }
+    if bits & 32 != 0 { v.push("--show-instr-offsets"); }
     v
 }
 
